@@ -144,6 +144,9 @@ func runList(opt *Options) int {
 	return 0
 }
 
+// knownObls: obligations of the current run that failed exactly as a listed known finding says.
+var knownObls []string
+
 type Evidence struct {
 	PropertyID  string                 `json:"property_id"`
 	Tier        string                 `json:"tier"`
@@ -281,6 +284,7 @@ func runCheck(prop string, opt *Options) int {
 	violations := 0
 	replayDir := filepath.Join(opt.Verif, "replays", prop)
 	var failNames []string
+	knownObls = nil
 	skipped := map[string]int{}
 	for _, o := range failed {
 		if o.Cover {
@@ -296,6 +300,7 @@ func runCheck(prop string, opt *Options) int {
 		}
 		failNames = append(failNames, o.Name)
 		if k := kf.match(prop, o.Name); k != nil {
+			knownObls = append(knownObls, o.Name)
 			if strings.HasPrefix(k.Text, "property=") {
 				fmt.Printf("KNOWN-FINDING: %s\n", k.Text)
 			} else {
@@ -429,7 +434,11 @@ func buildEvidence(prop string, opt *Options, u *Universe, results []*FuncResult
 	}
 	level := "proof"
 	cov := map[string]interface{}{
-		"obligations":              nObl,
+		// obligations claimed by this run: all generated ones except those that fail exactly as a listed
+		// known finding says (they are reported under known_finding_obligations, not counted as proved)
+		"obligations":              nObl - len(knownObls),
+		"generated_obligations":    nObl,
+		"known_finding_obligations": knownObls,
 		"discharged":               nDis,
 		"checker_cmd":              fmt.Sprintf("/verif/bin/govc check %s -tier %s", prop, opt.Tier),
 		"trusted_base":             tb,
